@@ -42,7 +42,7 @@ Definition m_adjustChunkSizing (k : ikind) (s e chunk maxThreads : Z) (isStatic 
   else
     if size <=? W k (poolThreads + b2z wait) then
       if m_isAuto chunk then (mt1, true)
-      else if negb (m_isStatic k chunk) then (W k (size - b2z wait), isStatic)
+      else if negb (m_isStatic k chunk) then (Z.min mt1 (W k (size - b2z wait)), isStatic)
       else (mt1, isStatic)
     else (mt1, isStatic).
 
